@@ -214,6 +214,63 @@ def gen_program(rng, big=False):
     return prog
 
 
+async def wide_row_fetches(chk, rng, count):
+    """cursors whose rows differ widely in size (a few bytes next to rows around and above the stream's buffer threshold): the
+    rows of every fetch arrive in the cursor's order, each once, with consecutive sequence ids"""
+    from lib import split_packets
+    for i in range(count):
+        widths = [rng.choice([1, 5, 7, 200, 32000, 32760, 32768, 40000, 70000]) for _ in range(rng.randrange(3, 9))]
+        if not any(w >= 32760 for w in widths):
+            widths[rng.randrange(1, len(widths))] = 40000
+        rows = [(k + 1, "%04d:" % k + "x" * w) for k, w in enumerate(widths)]
+        cols = [ResultColumn("id", ColumnType.LONGLONG), ResultColumn("t", ColumnType.VARCHAR)]
+        src = rng.choice(["list", "agen"])
+
+        def beh(sess, e, sql, attrs, rows=rows, cols=cols, src=src):
+            if src == "list":
+                return list(rows), cols
+
+            async def ag():
+                for r in rows:
+                    yield r
+            return ag(), cols
+        s = RecSession(beh)
+        srv = mkserver([s])
+        a = Peer(srv)
+        caps = rng.choice([BASE, BASE | C.CLIENT_DEPRECATE_EOF])
+        await a.login(caps=caps)
+        o = await a.cmd(b"\x16select id, t from x")
+        sid = struct.unpack_from("<I", o[0][1], 1)[0]
+        await a.cmd(com_stmt_execute(sid, [], caps=caps, flags=1), n=60)
+        got, sizes, pos = [], [], 0
+        desc = dict(row_widths=widths, source=src, deprecate_eof=bool(int(caps) & int(C.CLIENT_DEPRECATE_EOF)), seed=chk.seed, case=i)
+        chk.case(("wide-fetch", tuple(widths), src))
+        chk.count("wide-row-fetch")
+        bad = None
+        while pos < len(rows) and bad is None:
+            n = rng.choice([1, 2, 3, 4, len(rows)])
+            sizes.append(n)
+            out = await a.cmd(b"\x1c" + struct.pack("<II", sid, n), n=200)
+            if [q for q, _ in out] != [(k + 1) % 256 for k in range(len(out))]:
+                bad = "sequence ids of a fetch response: %r" % [q for q, _ in out][:8]
+                break
+            batch = []
+            try:
+                for _, p in out[:-1]:
+                    r = decode_binary_row(p, [8, 253])
+                    batch.append((r[0], r[1].decode() if isinstance(r[1], (bytes, bytearray)) else r[1]))
+            except Exception as e:  # noqa
+                bad = "undecodable row in a fetch response: %r" % (e,)
+                break
+            want = rows[pos:pos + n]
+            if batch != [(r[0], r[1]) for r in want]:
+                bad = "fetch(%d) at row %d returned ids %r, expected %r" % (n, pos, [b[0] for b in batch], [r[0] for r in want])
+            pos += len(want)
+        if bad:
+            chk.fail("rows of a cursor with rows of very different sizes arrive out of order / not exactly once", dict(desc, fetch_sizes=sizes), bad)
+        await a.finish()
+
+
 def main():
     chk = Check("C11", sys.argv[1:])
     chk.rule = ("(1) exhaustive: every result length N<=Nmax and every sequence of fetch sizes <=N+1 up to exhaustion on one "
@@ -270,6 +327,7 @@ def main():
             await run_program(chk, BASE, prog, lines, impl)
             chk.case(("big", tuple(map(str, prog))), nontrivial=True)
             chk.count("big-program")
+        await wide_row_fetches(chk, rng, 10 if not chk.thorough else 150)
 
     asyncio.run(go())
     for prog, start in progs:
